@@ -46,7 +46,43 @@ func ruleC04EveryKeyProbed(c *Ctx) {
 			continue
 		}
 		calls := 0
-		for _, g := range withClosures(f) {
+		// the executor, its function literals, and the module functions they start (a goroutine body moved into a method
+		// or a named function), two levels deep; their call sites are where a parameter gets its value
+		probeSites = map[*ssa.Function][]ssa.CallInstruction{}
+		probeFns := withClosures(f)
+		frontier := probeFns
+		for level := 0; level < 2; level++ {
+			var next []*ssa.Function
+			for _, g := range frontier {
+				allInstrs(g, func(_ *ssa.BasicBlock, in ssa.Instruction) {
+					ci, ok := in.(ssa.CallInstruction)
+					if !ok {
+						return
+					}
+					cal := ci.Common().StaticCallee()
+					if cal == nil || len(cal.Blocks) == 0 || cal.Parent() != nil || !strings.HasPrefix(funcPkgPath(cal), modPath) || matchers[cal.Name()] || cal == f {
+						return
+					}
+					if _, seen := probeSites[cal]; !seen {
+						next = append(next, withClosures(cal)...)
+					}
+					probeSites[cal] = append(probeSites[cal], ci)
+				})
+			}
+			have := map[*ssa.Function]bool{}
+			for _, g := range probeFns {
+				have[g] = true
+			}
+			frontier = nil
+			for _, g := range next {
+				if !have[g] {
+					have[g] = true
+					probeFns = append(probeFns, g)
+					frontier = append(frontier, g)
+				}
+			}
+		}
+		for _, g := range probeFns {
 			allInstrs(g, func(b *ssa.BasicBlock, in ssa.Instruction) {
 				call, ok := in.(*ssa.Call)
 				if !ok {
@@ -81,6 +117,9 @@ func ruleC04EveryKeyProbed(c *Ctx) {
 		c.Unknown("c04.every-key-probed", "inventory", "-", fmt.Sprintf("%d matcher calls found in the four executors (4 confirmed by hand)", n))
 	}
 }
+
+// probeSites: the call sites (in the executor under examination and what it starts) of the module functions it starts.
+var probeSites map[*ssa.Function][]ssa.CallInstruction
 
 // probeKeyOrigin traces v back to `k` of `for k[, v] := range <driving>.<field>`; returns the Next instruction of that
 // loop, or the reason the trace ended elsewhere.
@@ -151,7 +190,31 @@ func probeKeyOrigin(v ssa.Value, driving *ssa.Parameter, depth int, seen map[ssa
 	case *ssa.Parameter:
 		fn := x.Parent()
 		if fn.Parent() == nil {
-			return nil, "it is a parameter of the executor"
+			sites := probeSites[fn]
+			if len(sites) == 0 {
+				return nil, "it is a parameter of the executor"
+			}
+			pi := -1
+			for i, p := range fn.Params {
+				if p == x {
+					pi = i
+				}
+			}
+			var res *ssa.BasicBlock
+			for _, site := range sites {
+				if pi < 0 || pi >= len(site.Common().Args) {
+					return nil, "the call that starts " + fn.Name() + " does not pass it"
+				}
+				hd, why := probeKeyOrigin(site.Common().Args[pi], driving, depth+1, seen)
+				if why != "" {
+					return nil, why
+				}
+				if res != nil && res != hd {
+					return nil, fn.Name() + " is started from two loops"
+				}
+				res = hd
+			}
+			return res, ""
 		}
 		idx := -1
 		for i, p := range fn.Params {
@@ -315,7 +378,7 @@ func everyRound(head *ssa.BasicBlock, in ssa.Instruction, g, f *ssa.Function) st
 		for h.Parent() != nil && h.Parent() != head.Parent() {
 			h = h.Parent()
 		}
-		if h.Parent() == nil {
+		if h.Parent() == nil && len(probeSites[h]) == 0 {
 			return "the function literal is not created in the function that holds the loop"
 		}
 		for _, b := range head.Parent().Blocks {
@@ -328,6 +391,9 @@ func everyRound(head *ssa.BasicBlock, in ssa.Instruction, g, f *ssa.Function) st
 					cv = s.Call.Value
 				}
 				if mc, ok := cv.(*ssa.MakeClosure); ok && mc.Fn == ssa.Value(h) {
+					at = i2
+				}
+				if ci, ok := i2.(ssa.CallInstruction); ok && ci.Common().StaticCallee() == h {
 					at = i2
 				}
 			}
